@@ -168,14 +168,22 @@ func ToGNMITypedValue(v *sdcpb.TypedValue) *gnmi.TypedValue {
 		return &gnmi.TypedValue{
 			Value: &gnmi.TypedValue_BytesVal{BytesVal: v.GetBytesVal()},
 		}
-	// case *sdcpb.TypedValue_DecimalVal:
-	// 	return &gnmi.TypedValue{
-	// 		Value: &gnmi.TypedValue_DecimalVal{DecimalVal: v.GetDecimalVal()},
-	// 	}
-	// case *sdcpb.TypedValue_FloatVal:
-	// 	return &gnmi.TypedValue{
-	// 		Value: &gnmi.TypedValue_FloatVal{FloatVal: v.GetFloatVal()},
-	// 	}
+	case *sdcpb.TypedValue_DecimalVal:
+		// digits and precision carry the decimal64 value exactly, a double would not
+		return &gnmi.TypedValue{
+			Value: &gnmi.TypedValue_DecimalVal{DecimalVal: &gnmi.Decimal64{
+				Digits:    v.GetDecimalVal().GetDigits(),
+				Precision: v.GetDecimalVal().GetPrecision(),
+			}},
+		}
+	case *sdcpb.TypedValue_FloatVal:
+		return &gnmi.TypedValue{
+			Value: &gnmi.TypedValue_FloatVal{FloatVal: v.GetFloatVal()},
+		}
+	case *sdcpb.TypedValue_DoubleVal:
+		return &gnmi.TypedValue{
+			Value: &gnmi.TypedValue_DoubleVal{DoubleVal: v.GetDoubleVal()},
+		}
 	case *sdcpb.TypedValue_IntVal:
 		return &gnmi.TypedValue{
 			Value: &gnmi.TypedValue_IntVal{IntVal: v.GetIntVal()},
@@ -213,6 +221,11 @@ func ToGNMITypedValue(v *sdcpb.TypedValue) *gnmi.TypedValue {
 	case *sdcpb.TypedValue_IdentityrefVal:
 		return &gnmi.TypedValue{
 			Value: &gnmi.TypedValue_StringVal{StringVal: v.GetIdentityrefVal().Value},
+		}
+	case *sdcpb.TypedValue_EmptyVal:
+		// gNMI has no typed value for the YANG type empty, a set leaf is expressed as boolean true
+		return &gnmi.TypedValue{
+			Value: &gnmi.TypedValue_BoolVal{BoolVal: true},
 		}
 	}
 	return nil
